@@ -17,6 +17,7 @@ mod d_token;
 mod d_hubauth;
 mod d_hubseq;
 mod d_dispcfg;
+mod d_stoken;
 
 pub struct Rng(pub u64);
 impl Rng {
@@ -55,6 +56,7 @@ fn driver(name: &str) -> Box<dyn Driver> {
         "hub_auth" => Box::new(d_hubauth::HubAuth),
         "hub_seq" => Box::new(d_hubseq::HubSeq),
         "disp_cfg" => Box::new(d_dispcfg::DispCfg),
+        "stoken_world" => Box::new(d_stoken::StTokenWorld),
         other => {
             if let Some(d) = d_hub::driver(other) { return d; }
             if let Some(d) = d_misc::driver(other) { return d; }
